@@ -692,8 +692,6 @@ class NetworkGraph(AbstractBaseIR):
             for in_name, in_info in inputs.items():
                 if op in in_info.get('sources', ()) and 'var' not in in_info and 'node' not in in_info:
                     in_info['var'] = in_name
-            if var not in inputs.keys():
-                inputs[var] = {'sources': {op}}
 
         # update edge information
         idx_l = 0
